@@ -815,6 +815,7 @@ fn mode_drive(a: &Args) {
             // shapes: snapshot k relative to the last sync snapshot before k (0 = nothing existed)
             let mut bases = vec![];
             let mut last_sync = 0usize;
+            let mut syncs_seen = 0usize;
             let last_explicit = (1..=rec.k).rev().find(|&k| rec.points[k - 1]["sync"] == json!(true)).unwrap_or(rec.k);
             for k in 1..=rec.k {
                 let base = last_sync;
@@ -832,7 +833,10 @@ fn mode_drive(a: &Args) {
                 let is_sync = rec.points[k - 1]["sync"] == json!(true);
                 // dense truncation (every byte): sync snapshots; quick tier: only the last one of the run
                 let small = list_files(&dk).iter().all(|f| fs::metadata(dk.join(f)).map(|m| m.len() <= 512).unwrap_or(true));
-                let dense = !big && is_sync && (a.thorough() || k == last_explicit || small);
+                let dense = !big && is_sync && (a.thorough() || k == last_explicit || (small && syncs_seen < 2));
+                if is_sync {
+                    syncs_seen += 1;
+                }
                 let mut first = true;
                 if names.is_empty() {
                     names.push(String::new());
